@@ -11,7 +11,9 @@ import (
 	"bytes"
 	"encoding/json"
 	"fmt"
+	"io"
 	"mime/multipart"
+	"net"
 	"os"
 	"sort"
 	"strings"
@@ -34,8 +36,11 @@ type c35Req struct {
 }
 
 type c35Beh struct {
-	Stream bool     `json:"stream"`
-	Hist   []c35Req `json:"hist"`
+	Stream    bool     `json:"stream"`
+	KeepHij   bool     `json:"keepHij"`
+	PoolLimit bool     `json:"poolLimit"`
+	NoPre     bool     `json:"noPre"`
+	Hist      []c35Req `json:"hist"`
 }
 
 func c35Content(class string, salt int) []byte {
@@ -222,10 +227,13 @@ func TestVerifC35TempFiles(t *testing.T) {
 		var atStart [][]string // temp dir listing at each handler start
 		spooled := 0
 		var parseErrs []string
+		hijDone := make(chan struct{}, 1)
 		s := &Server{
-			StreamRequestBody:  b.Stream,
-			MaxRequestBodySize: 64 << 20, // uploads above the 16 MiB pre-parse threshold must be admitted
-			Logger:             csNopLogger{},
+			StreamRequestBody:            b.Stream,
+			KeepHijackedConns:            b.KeepHij,
+			DisablePreParseMultipartForm: b.NoPre,
+			MaxRequestBodySize:           64 << 20, // uploads above the 16 MiB pre-parse threshold must be admitted
+			Logger:                       csNopLogger{},
 			Handler: func(ctx *RequestCtx) {
 				var k int
 				fmt.Sscanf(string(ctx.Path()), "/m%d", &k)
@@ -251,6 +259,15 @@ func TestVerifC35TempFiles(t *testing.T) {
 					return
 				}
 				f, err := ctx.MultipartForm()
+				if r.Mode == "ondemandhijack" {
+					ctx.Hijack(func(c net.Conn) {
+						io.Copy(io.Discard, c) //nolint:errcheck // until the client goes away
+						if b.KeepHij {
+							c.Close() // with KeepHijackedConns the handler owns the connection
+						}
+						hijDone <- struct{}{}
+					})
+				}
 				mu.Lock()
 				defer mu.Unlock()
 				spooled += len(c35ListTmp(tmpdir))
@@ -271,6 +288,9 @@ func TestVerifC35TempFiles(t *testing.T) {
 				}
 			},
 		}
+		if b.PoolLimit {
+			SetBodySizePoolLimit(1024, 1024) // body buffers above 1 KiB are dropped at Reset
+		}
 		pc := fasthttputil.NewPipeConns()
 		done := make(chan struct{})
 		go func() { s.ServeConn(pc.Conn1()); close(done) }() //nolint:errcheck
@@ -288,7 +308,8 @@ func TestVerifC35TempFiles(t *testing.T) {
 			}
 			var raw bytes.Buffer
 			fmt.Fprintf(&raw, "POST /m%d HTTP/1.1\r\nHost: x\r\nContent-Type: multipart/form-data; boundary=hb\r\n", i+1)
-			if r.Mode == "preparse" {
+			if r.Mode == "preparse" || b.NoPre {
+				// (with DisablePreParseMultipartForm a fixed-length body is parsed on demand too)
 				fmt.Fprintf(&raw, "Content-Length: %d\r\n\r\n", declared)
 				raw.Write(body)
 			} else {
@@ -321,8 +342,27 @@ func TestVerifC35TempFiles(t *testing.T) {
 				problems = append(problems, fmt.Sprintf("request %d answered with %d", i+1, resp.StatusCode()))
 				break
 			}
+			if r.Mode == "ondemandhijack" {
+				break // the connection now belongs to the hijack handler
+			}
 		}
 		cli.Close()
+		hijacked := false
+		for _, r := range b.Hist {
+			if r.Mode == "ondemandhijack" {
+				hijacked = true
+			}
+		}
+		if hijacked && len(problems) == 0 {
+			select {
+			case <-hijDone:
+			case <-time.After(15 * time.Second):
+				problems = append(problems, "hijack handler did not see the client go away")
+			}
+		}
+		if b.PoolLimit {
+			SetBodySizePoolLimit(-1, -1)
+		}
 		select {
 		case <-done:
 		case <-time.After(15 * time.Second):
@@ -338,7 +378,7 @@ func TestVerifC35TempFiles(t *testing.T) {
 			}
 			time.Sleep(time.Millisecond)
 		}
-		desc := fmt.Sprintf("stream=%v", b.Stream)
+		desc := fmt.Sprintf("stream=%v keepHij=%v poolLimit=%v noPre=%v", b.Stream, b.KeepHij, b.PoolLimit, b.NoPre)
 		for _, r := range b.Hist {
 			big := 0
 			for _, fl := range r.Form.Files {
